@@ -167,8 +167,12 @@ def run_case(case):
         bound, cond = matref.root_error_bound(n, u, float(lam.min()), float(lam.max()), eps_eff, r, C_m=cm, tol_solver=tol_solver, exponent_f32=exp_f32)
         counters["evals"] += 1
         # ---- the call under observation
+        from ..common import KernelObserver
+
+        kobs = KernelObserver(measure_orth=True)
         try:
-            X = mf.matrix_inverse_root(A, r, root_inv_config=cfg, epsilon=eps, is_diagonal=(solver == "fast"))
+            with kobs:
+                X = mf.matrix_inverse_root(A, r, root_inv_config=cfg, epsilon=eps, is_diagonal=(solver == "fast"))
         except ArithmeticError:
             if solver == "ho":
                 counters["raised_arith"] += 1  # the documented guard: raise rather than return a bad result
@@ -186,6 +190,12 @@ def run_case(case):
         asym = float((X - X.T).to(torch.float64).norm() / X.to(torch.float64).norm().clamp_min(1e-300))
         if asym > 64 * n * u and solver in ("eig", "eig_stab", "fast"):
             raise Violation(f"asymmetric result: ||X-X^T||/||X|| = {asym:.3g}", **desc)
+        # the third-party eigensolver's own measured loss of orthogonality (normally ~n*u; MKL's divide-and-conquer was seen
+        # to return 2e-11 for tightly clustered float64 spectra) enters X = V f(L) V^T at first order, amplified by cond^(1/r)
+        if kobs.max_orth_defect > 8 * n * u:
+            bound += 4 * kobs.max_orth_defect * max(1.0, cond ** (1.0 / float(r)))
+            counters["kernel_orth_defect_cases"] = counters.get("kernel_orth_defect_cases", 0) + 1
+            counters["max_kernel_orth_defect"] = max(counters.get("max_kernel_orth_defect", 0.0), kobs.max_orth_defect)
         applicable = bound <= 0.1 and not (solver == "fast" and mult != 1.0)
         if solver in ("newton", "ho") and n >= 2:
             # narrowed claim (DESIGN C10): the accuracy bound with the solver's tolerance is judged only when the
